@@ -156,7 +156,13 @@ class Engine(GenericConcreteEngine[Callable[..., Any]]):
                 return tree, False, ("backtracking through binary operations is not implemented",)
             case Transfer(target=target) as transfer:
                 if target.engine == preferred:
-                    return transfer.reapply(operation.apply(target)), True, ()
+                    upstream = operation.apply(target)
+                    if upstream.engine == transfer.destination:
+                        # The operation returned a relation that already lives
+                        # in this engine (a join to a join identity returns the
+                        # other operand), so there is nothing left to transfer.
+                        return upstream, True, ()
+                    return transfer.reapply(upstream), True, ()
                 else:
                     upstream, done, messages = target.engine.backtrack_unary(operation, target, preferred)
                     if upstream is target:
